@@ -17,9 +17,9 @@
   (op `ae`, exhaustive over short strings on the metacharacter alphabet) ties it to the C.
 
   Weights: the scanner honours "q=0" (RFC 9110 12.4.2: weight 0 = not acceptable).  The
-  pinned tree ignored all parameters (so `gzip;q=0, deflate` was answered with gzip); that
-  is reported as a defect of the tree by the C19 check and the model describes the
-  repaired scanner (see PROPOSED_FIX in tools/ltv/props/c19.py).
+  pinned tree ignored all parameters (so `gzip;q=0, deflate` was answered with gzip); the C19
+  check reported that (known_findings D26) and /repo commit 2a3a422 repaired the loop exactly
+  as modelled here (the diff is kept as PROPOSED_FIX in tools/ltv/props/c19.py).
 
   zlib itself is external: the compressor is a parameter `compress : Coding → Bytes → Bytes`.
 
